@@ -232,3 +232,104 @@ Proof.
   - repeat constructor; cbn; try reflexivity; try (intro; discriminate).
 Qed.
 Print Assumptions C10_nonvacuous_R3.
+
+(* ---- tie by translation (Gen/GenPathFlow.v, re-derived from /repo on every run): the children loops
+   of BaseTransform.move / _rotate and of the BaseGeo setters forward exactly what CompoundModel
+   forwards; the compound anchor is the slice of the handed-down parent path *)
+From Coq Require Import String.
+From MV Require Import Gen.GenPathFlow Model.L2Arith Model.PathFlow Proofs.PathFlowProofs.
+Open Scope string_scope.
+Open Scope Z_scope.
+
+Theorem C10_flow_translated : flow = expected_flow.
+Proof. exact flow_translated. Qed.
+
+Section FlowSemantics.
+Context {O : RigidOps}.
+
+Theorem C10_move_children_translated :
+  forall (o : obj) (ch : list node) (d : inp V) (st : option Z),
+  (callee e_move_child, arg 0 e_move_child, nargs e_move_child, kwnames e_move_child, kwarg "start" e_move_child)
+    = (PAttr (PName "child") "move", PName "displacement", 1%nat, ["start"], PName "start") /\
+  (callee e_move_self, arg 0 e_move_self, arg 1 e_move_self, kwnames e_move_self, kwarg "start" e_move_self)
+    = (PName "apply_move", PName "self", PName "displacement", ["start"], PName "start") /\
+  move_t (Node o ch) d st = Node (apply_move o d st) (map (fun c => move_t c d st) ch).
+Proof. exact move_children_translated. Qed.
+
+Theorem C10_rotate_children_translated :
+  exists f, interp_ppth e_rot_ppth = Some f /\
+  (callee e_rot_child, arg 0 e_rot_child, nargs e_rot_child, kwnames e_rot_child) =
+    (PAttr (PName "child") "_rotate", PName "rotation", 1%nat, ["anchor"; "start"; "parent_path"]) /\
+  (kwarg "anchor" e_rot_child, kwarg "start" e_rot_child, kwarg "parent_path" e_rot_child) =
+    (PName "anchor", PName "start", PName "ppth") /\
+  (callee e_rot_self, arg 0 e_rot_self, arg 1 e_rot_self, kwnames e_rot_self) =
+    (PName "apply_rotation", PName "self", PName "rotation", ["anchor"; "start"; "parent_path"]) /\
+  (kwarg "anchor" e_rot_self, kwarg "start" e_rot_self, kwarg "parent_path" e_rot_self) =
+    (PName "anchor", PName "start", PName "parent_path") /\
+  get "rotate" "return" "" 0 flow =
+    PCall (PAttr (PName "self") "_rotate") []
+          [("rotation", PName "rotation"); ("anchor", PName "anchor"); ("start", PName "start")] /\
+  forall (o : obj) (ch : list node) (r : inp G) (a : option (inp V)) (st : option Z) (pp : option (list V)),
+    rotate_t (Node o ch) r a st pp =
+    Node (apply_rotation o r a st pp)
+         (map (fun c => rotate_t c r a st (Some (f (list V) (PathModel.pos o) pp))) ch).
+Proof. exact rotate_children_translated. Qed.
+
+Theorem C10_children_first_translated :
+  (exists i j, index_of "_rotate" "for" (fun _ => true) 0 flow = Some i /\
+               index_of "_rotate" "expr" (is_call_of (PName "apply_rotation")) 0 flow = Some j /\ (i < j)%nat) /\
+  (exists i j, index_of "move" "for" (fun _ => true) 0 flow = Some i /\
+               index_of "move" "expr" (is_call_of (PName "apply_move")) 0 flow = Some j /\ (i < j)%nat).
+Proof. exact children_first_translated. Qed.
+
+Theorem C10_parent_anchor_model : forall (o : obj) (r : inp G) (st : option Z) (pp : list V),
+  let '(ppath, opath, newstart, e, _) := path_padding (is_scalar r) (ilen r) st o in
+  let '(padding, s2) := path_padding_param (is_scalar r) (zlen pp) (e - newstart) st in
+  let pp' := match padding with Some (b, a) => edge_pad vzero b a pp | None => pp end in
+  apply_rotation o r None st (Some pp) =
+  {| PathModel.pos := upd_range newstart e
+              (fun j p => vadd (act (iget gone r j) (vsub p (nthZ vzero pp' (s2 + j))))
+                               (nthZ vzero pp' (s2 + j))) ppath;
+     ori := upd_range newstart e (fun j q => gmul (iget gone r j) q) opath |}.
+Proof. exact parent_anchor_model. Qed.
+
+Theorem C10_position_setter_translated :
+  forall (o : obj) (c : node) (rest : list node) (ps : list V),
+  get "position.setter" "assign" "old_pos" 0 flow = SELFPOS /\
+  psp_args e_ps_ori = Some (SELFPOS, PName "oriQ") /\
+  psp_args e_ps_old = Some (SELFPOS, PName "old_pos") /\
+  psp_args e_ps_child = Some (SELFPOS, CHILDPOS) /\
+  get "position.setter" "assign" "rel_child_pos" 0 flow = PBin "-" (PName "child_pos") (PName "old_pos") /\
+  find_nth "position.setter" "assign" "child.position" 0 flow =
+    Some (PBin "+" SELFPOS (PName "rel_child_pos")) /\
+  set_position_t (Node o (c :: rest)) ps =
+    Node {| PathModel.pos := ps; ori := pad_slice_path gone ps (ori o) |}
+      (let old_pos := pad_slice_path vzero ps (PathModel.pos o) in
+       let child_pos := pad_slice_path vzero ps (PathModel.pos (nobj c)) in
+       let rel_child_pos := zipw vsub child_pos old_pos in
+       set_position_t c (zipw vadd ps rel_child_pos) :: setpos_children set_position_t ps old_pos rest).
+Proof. exact position_setter_translated. Qed.
+
+Theorem C10_orientation_setter_translated :
+  psp_args e_os_pos = Some (PName "oriQ", SELFPOS) /\
+  psp_args e_os_child = Some (SELFPOS, CHILDPOS) /\
+  e_os_oldpad = PCall (PAttr (PName "R") "from_quat")
+                  [PCall (PAttr (PName "np") "squeeze")
+                     [PCall (PName "pad_slice_path") [PName "oriQ"; PName "old_oriQ"] []] []] [] /\
+  (callee e_os_rot, arg 0 e_os_rot, kwnames e_os_rot, kwarg "anchor" e_os_rot, kwarg "start" e_os_rot) =
+    (PAttr (PName "child") "rotate",
+     PBin "*" (PAttr (PName "self") "orientation") (PCall (PAttr (PName "old_ori_pad") "inv") [] []),
+     ["anchor"; "start"], SELFPOS, PInt 0) /\
+  (find_nth "reset_path" "assign" "self.position" 0 flow, find_nth "reset_path" "assign" "self.orientation" 0 flow)
+    = (Some (PTuple [PInt 0; PInt 0; PInt 0]), Some PNone).
+Proof. exact orientation_setter_translated. Qed.
+
+End FlowSemantics.
+
+Print Assumptions C10_flow_translated.
+Print Assumptions C10_move_children_translated.
+Print Assumptions C10_rotate_children_translated.
+Print Assumptions C10_children_first_translated.
+Print Assumptions C10_parent_anchor_model.
+Print Assumptions C10_position_setter_translated.
+Print Assumptions C10_orientation_setter_translated.
